@@ -87,6 +87,7 @@ pub fn extract_all(dir: &Path) {
     c18::extract(dir);
     c19::extract(dir);
     c23::extract(dir);
+    c20::extract(dir);
 }
 
 #[allow(dead_code)]
